@@ -54,7 +54,7 @@ def class_key(cls):
 
 
 def coarse_key(cls):
-    return "|".join(str(cls.get(k, "")) for k in ("mnclass", "form", "sub", "ind", "force", "valclass", "valsrc", "sp"))
+    return "|".join(str(cls.get(k, "")) for k in ("mnclass", "form", "sub", "ind", "force", "valclass", "valsrc", "sp", "nvals", "strclass", "delim"))
 
 
 class Case(object):
@@ -83,7 +83,7 @@ def run_suite(ctx, name, cases, report_all_classes=True, owned_only=True, hooks=
     adapter = [extras[t["id"]]["adapter"] for t in traces if extras[t["id"]]["adapter"]]
     if adapter:
         raise tlc.MachineryError("impl adapter disagrees with the public listing: %s" % adapter[0])
-    bad_render = [t["id"] for t in traces if t["outcome"] == "stmtcount"]
+    bad_render = [t["id"] for t in traces if t["outcome"] == "stmtcount" and cases[t["id"]].prog]
     if bad_render:
         k = bad_render[0]
         raise tlc.MachineryError("renderer/parser statement count mismatch for %r" % (cases[k].lines,))
